@@ -210,6 +210,7 @@ func execC06(t *testing.T, c *sim.Case) *sim.Result {
 		nkeys := int(c.CfgInt("keys", 3))
 		plain := c.CfgInt("api", 0) == 0
 		hist := map[string][]mvEntry{}
+		c06TieSeen = map[string]bool{}
 		for i, op := range c.Ops {
 			w.step = i
 			sim.Beat()
@@ -266,11 +267,20 @@ func execC06(t *testing.T, c *sim.Case) *sim.Result {
 			if w.DB == nil {
 				return
 			}
+			if plain && op.K != "iter" {
+				tieKeys(w, nkeys, c06TieSeen)
+			}
 		}
 		res.Nontrivial = res.Checks > 0 && (res.Faults["flush"] > 0 || res.Faults["rotate"] > 0)
 	})
 	return res
 }
+
+// c06TieSeen: default-CF keys of the current run that had two equal-version
+// copies with one below L0 at the end of some earlier step (runs are sequential
+// inside a worker process). After the ingest buffer is merged only the older
+// copy may be left, so the fact has to be remembered.
+var c06TieSeen map[string]bool
 
 func checkIter(w *World, op sim.Op, hist map[string][]mvEntry, plain bool, nkeys int) {
 	bits := int(op.A)
@@ -622,6 +632,10 @@ func compareRows(w *World, hist map[string][]mvEntry, sig map[string]string, see
 			}
 		}
 		sig["equal_version_copies_below_l0"] = "no"
+		sig["equal_version_tie_seen"] = yn(diffKey != "" && c06TieSeen[fmt.Sprintf("%d/%s", kv.CFDefault, diffKey)])
+		if detailKey == "" {
+			detailKey = diffKey
+		}
 		if diffKey != "" {
 			n := 0
 			for _, cp := range w.DB.VerifLocate(kv.CFDefault, []byte(diffKey)) {
@@ -634,5 +648,5 @@ func compareRows(w *World, hist map[string][]mvEntry, sig map[string]string, see
 			}
 		}
 	}
-	w.Res.Violate(w.step, class, sig, "%s (key %q): got %v; expected %v", what, detailKey, got, exp)
+	w.Res.Violate(w.step, class, sig, "%s (key %q): got %v; expected %v; copies: %s tables: %s", what, detailKey, got, exp, DescribeCopies(w, kv.CFDefault, []byte(detailKey)), DescribeTables(w))
 }
